@@ -6,7 +6,7 @@ for sid in "$@"; do
   W=/tmp/wt_confirm_$sid
   git -C /repo worktree add -q --detach "$W" HEAD || continue
   if git -C "$W" apply "$D/patch.diff"; then
-    (cd "$W" && nice -n 10 timeout 3000 env -u COTENGRA_VERIF /venv/bin/python -m pytest -q -p no:cacheprovider --timeout=900 --deselect "tests/test_optimizers.py::test_hyper[False-chocolate-chocolate]" --deselect "tests/test_optimizers.py::test_hyper[True-chocolate-chocolate]" 2>&1 | grep -E "passed|failed|error" | tail -1) > "$D/tests_full.txt" 2>&1
+    (cd "$W" && nice -n 10 timeout 3000 env -u COTENGRA_VERIF /venv/bin/python -m pytest -q -p no:cacheprovider --timeout=900 --deselect "tests/test_optimizers.py::test_hyper[False-chocolate-chocolate]" --deselect "tests/test_optimizers.py::test_hyper[True-chocolate-chocolate]" 2>&1 | grep -E "^FAILED|passed|failed|error" | tail -4) > "$D/tests_full.txt" 2>&1
   else
     echo "patch does not apply" > "$D/tests_full.txt"
   fi
